@@ -20,6 +20,13 @@ package main
 //	                  inside leaves the helper, not the walk); a func literal called in place
 //	EvBreak EvContinue EvReturn EvPanic, EvDefer body
 //
+// CANONICAL NAMES, so that a refactoring which keeps the events keeps the table: the receiver is printed `s`, the
+// node being walked `node`, the parameters of the other entries `$1 $2 ..`; a range variable is printed as the
+// thing it ranges over followed by `[]` (cond -> node.Conds[]); every other local is printed `?` (result -> ?,
+// callData.push -> ?.push); the variable of a loop is not recorded; the target of a store through a local is
+// reduced to its last field and index (`.vars[]`, `.entered`, `[]`, `*`).  Helper methods of the receiver's type
+// and plain functions defined in the same file are inlined where they are called.
+//
 // Methods of *state that are walker primitives are NOT inlined (they are
 // EvCall events and have their own entries); helper methods are.  A recursive
 // call of a helper that is being inlined stays a EvCall.  Local variables that
@@ -38,6 +45,7 @@ import (
 	"go/printer"
 	"go/token"
 	"sort"
+	"strconv"
 	"strings"
 )
 
@@ -159,6 +167,7 @@ func (e *wev) coq(ind string) string {
 type wx struct {
 	g        *gen
 	rel      string
+	recv     string            // type of the receiver of the entry being extracted ("" for a plain function)
 	subst    []map[string]wkey // innermost last
 	inlining []string
 	brk      []string // breakable contexts: "walk" (the type switch of walk), "loop", "cases"
@@ -170,7 +179,10 @@ var walkPrimitives = map[string]bool{"walk": true, "eval": true, "evaldef": true
 	"errorf": true, "errFromNode": true, "callAnnotation": true, "errRecover": true}
 
 // calls that are not events: pure builtins, conversions, value and node accessors, formatting
-var walkIgnoreFuncs = map[string]bool{"len": true, "make": true, "append": true, "recover": true, "int": true, "float64": true,
+// plain functions of exec.go that stay events although they are defined in the file (they have their own entry)
+var walkKeepFuncs = map[string]bool{"htmlEscapeString": true}
+
+var walkIgnoreFuncs = map[string]bool{"toFloat": true, "len": true, "make": true, "append": true, "recover": true, "int": true, "float64": true,
 	"string": true, "isInt": true, "isString": true, "checkNumArgs": true, "isNullSafeAccess": true,
 	"fmt.Sprintf": true, "fmt.Errorf": true, "debug.Stack": true, "errors.New": true,
 	"data.Int": true, "data.Float": true, "data.String": true, "data.Bool": true, "data.List": true, "data.Map": true}
@@ -206,7 +218,7 @@ func (x *wx) bind(name string, k wkey) {
 // shadow removes a substitution (the name is re-declared with a value that is not event-free)
 func (x *wx) shadow(name string) {
 	if name != "_" {
-		x.subst[len(x.subst)-1][name] = wkey{Kind: "ref", Text: name}
+		x.subst[len(x.subst)-1][name] = wkey{Kind: "ref", Text: "?"}
 	}
 }
 
@@ -214,7 +226,7 @@ func (x *wx) shadow(name string) {
 func (x *wx) unbind(name string) {
 	for i := len(x.subst) - 1; i >= 0; i-- {
 		if _, ok := x.subst[i][name]; ok {
-			x.subst[i][name] = wkey{Kind: "ref", Text: name}
+			x.subst[i][name] = wkey{Kind: "ref", Text: "?"}
 			return
 		}
 	}
@@ -236,10 +248,27 @@ func (x *wx) key(e ast.Expr) wkey {
 		return wkey{Kind: "ref", Text: e.Name}
 	case *ast.ParenExpr:
 		return x.key(e.X)
+	case *ast.StarExpr:
+		return x.key(e.X)
+	case *ast.TypeAssertExpr:
+		return x.key(e.X)
 	case *ast.SelectorExpr:
 		b := x.key(e.X)
 		if b.Kind == "ref" {
 			return wkey{Kind: "ref", Text: b.Text + "." + e.Sel.Name}
+		}
+	case *ast.IndexExpr:
+		b := x.key(e.X)
+		if b.Kind == "ref" {
+			return wkey{Kind: "ref", Text: b.Text + "[]"}
+		}
+	case *ast.CallExpr:
+		// an accessor without arguments on a reference: node.Children()
+		if sel, ok := e.Fun.(*ast.SelectorExpr); ok && len(e.Args) == 0 {
+			b := x.key(sel.X)
+			if b.Kind == "ref" {
+				return wkey{Kind: "ref", Text: b.Text + "." + sel.Sel.Name + "()"}
+			}
 		}
 	case *ast.BasicLit:
 		if s, ok := strLit(e); ok {
@@ -260,27 +289,28 @@ func (x *wx) target(e ast.Expr) string {
 	case *ast.IndexExpr:
 		return x.target(e.X) + "[]"
 	case *ast.StarExpr:
-		return "*" + x.target(e.X)
+		return "*"
 	case *ast.ParenExpr:
 		return x.target(e.X)
 	case *ast.SelectorExpr:
-		if _, ok := e.X.(*ast.Ident); !ok {
-			return x.target(e.X) + "." + e.Sel.Name
-		}
+		return "." + e.Sel.Name
 	}
-	return x.key(e).String()
+	return ""
 }
 
 func (x *wx) calleeText(fun ast.Expr) string {
 	switch f := fun.(type) {
 	case *ast.Ident:
+		if k, ok := x.lookup(f.Name); ok && k.Kind == "ref" {
+			return k.Text // a function value held in a local: ?
+		}
 		return f.Name
 	case *ast.SelectorExpr:
 		b := x.key(f.X)
 		if b.Kind == "ref" {
 			return b.Text + "." + f.Sel.Name
 		}
-		return "(" + b.String() + ")." + f.Sel.Name
+		return "?." + f.Sel.Name
 	case *ast.ParenExpr:
 		return x.calleeText(f.X)
 	}
@@ -293,10 +323,10 @@ func (x *wx) stateMethod(call *ast.CallExpr) (string, bool) {
 		return "", false
 	}
 	id, ok := sel.X.(*ast.Ident)
-	if !ok || id.Name != "s" {
+	if !ok || x.recv == "" {
 		return "", false
 	}
-	if _, shadowed := x.lookup("s"); shadowed {
+	if k := x.key(id); k.Kind != "ref" || k.Text != "s" {
 		return "", false
 	}
 	return sel.Sel.Name, true
@@ -371,8 +401,8 @@ func (x *wx) call(c *ast.CallExpr) {
 			x.emit(&wev{Op: "call", F: "s.errorf"}) // the text of an error is not an observable
 			return
 		}
-		if !walkPrimitives[m] {
-			if fd := x.g.method(x.rel, "state", m); fd != nil {
+		if !(x.recv == "state" && walkPrimitives[m]) {
+			if fd := x.g.method(x.rel, x.recv, m); fd != nil {
 				for _, a := range c.Args {
 					x.expr(a)
 				}
@@ -383,6 +413,23 @@ func (x *wx) call(c *ast.CallExpr) {
 					}
 				}
 				x.inline(m, fd, c.Args)
+				return
+			}
+		}
+	}
+	if id, ok := c.Fun.(*ast.Ident); ok && !walkKeepFuncs[id.Name] && !walkIgnoreFuncs[id.Name] {
+		if _, local := x.lookup(id.Name); !local {
+			if fd := x.g.funcDecl(x.rel, id.Name); fd != nil && fd.Body != nil {
+				for _, a := range c.Args {
+					x.expr(a)
+				}
+				for _, in := range x.inlining {
+					if in == id.Name {
+						x.emit(&wev{Op: "call", F: id.Name, Args: x.keys(c.Args)})
+						return
+					}
+				}
+				x.inline(id.Name, fd, c.Args)
 				return
 			}
 		}
@@ -427,11 +474,16 @@ func (x *wx) inline(name string, fd *ast.FuncDecl, args []ast.Expr) {
 		x.subst = []map[string]wkey{{}}
 		x.brk = nil
 		x.inlining = append(x.inlining, name)
+		if fd.Recv != nil && len(fd.Recv.List) == 1 && len(fd.Recv.List[0].Names) == 1 {
+			x.bind(fd.Recv.List[0].Names[0].Name, wkey{Kind: "ref", Text: "s"})
+		}
 		i := 0
 		for _, f := range fd.Type.Params.List {
 			for _, n := range f.Names {
-				if i < len(ks) {
+				if i < len(ks) && len(ks) == fd.Type.Params.NumFields() && ks[i].Kind != "other" {
 					x.bind(n.Name, ks[i])
+				} else {
+					x.shadow(n.Name)
 				}
 				i++
 			}
@@ -449,13 +501,16 @@ func (x *wx) block(l []ast.Stmt) {
 	}
 }
 
-func isStateField(e ast.Expr) (string, bool) {
+func (x *wx) isStateField(e ast.Expr) (string, bool) {
 	sel, ok := e.(*ast.SelectorExpr)
 	if !ok {
 		return "", false
 	}
 	id, ok := sel.X.(*ast.Ident)
-	if !ok || id.Name != "s" {
+	if !ok {
+		return "", false
+	}
+	if k := x.key(id); k.Kind != "ref" || k.Text != "s" {
 		return "", false
 	}
 	return "s." + sel.Sel.Name, true
@@ -534,7 +589,7 @@ func (x *wx) stmt(s ast.Stmt) {
 		// operands of index expressions and pointer indirections on the left, then the right, then the assignment
 		for _, l := range s.Lhs {
 			if _, ok := l.(*ast.Ident); !ok {
-				if _, ok := isStateField(l); !ok {
+				if _, ok := x.isStateField(l); !ok {
 					x.expr(l)
 				}
 			}
@@ -543,7 +598,7 @@ func (x *wx) stmt(s ast.Stmt) {
 			x.expr(r)
 		}
 		for _, l := range s.Lhs {
-			if f, ok := isStateField(l); ok {
+			if f, ok := x.isStateField(l); ok {
 				x.emit(&wev{Op: "assign", F: f})
 			} else if id, ok := l.(*ast.Ident); ok {
 				x.unbind(id.Name)
@@ -581,14 +636,19 @@ func (x *wx) stmt(s ast.Stmt) {
 					x.shadow(id.Name)
 				}
 				if id, ok := s.Value.(*ast.Ident); ok {
-					x.shadow(id.Name)
+					if over.Kind == "ref" {
+						x.bind(id.Name, wkey{Kind: "ref", Text: over.Text + "[]"})
+					} else {
+						x.bind(id.Name, wkey{Kind: "ref", Text: "?[]"})
+					}
 				}
 				x.brk = append(x.brk, "loop")
 				x.block(s.Body.List)
 				x.brk = x.brk[:len(x.brk)-1]
 			})
 		})
-		x.emit(&wev{Op: "loop", F: name, Over: &over, Body: body})
+		_ = name // the name of the variable is not recorded
+		x.emit(&wev{Op: "loop", F: "", Over: &over, Body: body})
 	case *ast.ForStmt:
 		x.scoped(func() {
 			x.stmt(s.Init)
@@ -722,7 +782,31 @@ func (g *gen) walkEvents() {
 		Evs  []*wev
 	}
 	var entries []entry
-	newx := func() *wx { return &wx{g: g, rel: rel, subst: []map[string]wkey{{}}} }
+	// entry <- function: the receiver is `s`, the parameters are $1 $2 .. (walk's: `node`)
+	newx := func() *wx {
+		return &wx{g: g, rel: rel, recv: "state", subst: []map[string]wkey{{"s": {Kind: "ref", Text: "s"}, "node": {Kind: "ref", Text: "node"}}}}
+	}
+	entryx := func(rel, recv string, fd *ast.FuncDecl) *wx {
+		x := &wx{g: g, rel: rel, recv: recv, subst: []map[string]wkey{{}}}
+		if fd.Recv != nil && len(fd.Recv.List) == 1 && len(fd.Recv.List[0].Names) == 1 {
+			x.bind(fd.Recv.List[0].Names[0].Name, wkey{Kind: "ref", Text: "s"})
+		}
+		i := 0
+		for _, f := range fd.Type.Params.List {
+			for _, n := range f.Names {
+				i++
+				x.bind(n.Name, wkey{Kind: "ref", Text: "$" + strconv.Itoa(i)})
+			}
+		}
+		if fd.Type.Results != nil {
+			for _, f := range fd.Type.Results.List {
+				for _, n := range f.Names {
+					x.shadow(n.Name)
+				}
+			}
+		}
+		return x
+	}
 
 	fd := g.method(rel, "state", "walk")
 	if fd == nil {
@@ -739,6 +823,9 @@ func (g *gen) walkEvents() {
 				break
 			}
 			pro = append(pro, s)
+		}
+		if len(fd.Recv.List[0].Names) != 1 || fd.Recv.List[0].Names[0].Name != "s" || fd.Type.Params.NumFields() != 1 || fd.Type.Params.List[0].Names[0].Name != "node" {
+			g.fail("walk-events: %s: walk is not `func (s *state) walk(node ast.Node)`", rel)
 		}
 		x := newx()
 		entries = append(entries, entry{"walk", x.sub(func() { x.block(pro) })})
@@ -779,11 +866,11 @@ func (g *gen) walkEvents() {
 			g.fail("walk-events: %s: (*state).%s not found", rel, m)
 			continue
 		}
-		x := newx()
+		x := entryx(rel, "state", fd)
 		entries = append(entries, entry{m, x.sub(func() { x.block(fd.Body.List) })})
 	}
 	if fd := g.funcDecl(rel, "htmlEscapeString"); fd != nil {
-		x := newx()
+		x := entryx(rel, "", fd)
 		entries = append(entries, entry{"htmlEscapeString", x.sub(func() { x.block(fd.Body.List) })})
 	} else {
 		g.fail("walk-events: %s: htmlEscapeString not found", rel)
@@ -811,7 +898,7 @@ func (g *gen) walkEvents() {
 			g.fail("walk-events: %s: %s not found", ex.rel, ex.fn)
 			continue
 		}
-		x := &wx{g: g, rel: ex.rel, subst: []map[string]wkey{{}}}
+		x := entryx(ex.rel, ex.recv, fd)
 		entries = append(entries, entry{ex.name, x.sub(func() { x.block(fd.Body.List) })})
 	}
 	// every method of *state in exec.go is either a primitive or reachable by inlining: list the names so that a
